@@ -1,0 +1,120 @@
+//go:build verif
+// +build verif
+
+package core
+
+import (
+	"sync"
+
+	context2 "github.com/oneconcern/datamon/pkg/context"
+	"github.com/oneconcern/datamon/pkg/model"
+	"go.uber.org/zap"
+)
+
+// Verification hooks (build tag "verif"): drive the real diamond merger (mergeSplits) from a
+// pre-filled split indexer channel, so that an external harness controls the exact order in
+// which the batches of split file entries reach the merge. No behaviour is changed.
+
+// VerifBatch is the content of one split index file as received by the merger.
+type VerifBatch struct {
+	SplitID string
+	Entries []model.BundleEntry
+}
+
+// VerifMerged is one entry sent by the merger to the bundle index uploader.
+type VerifMerged struct {
+	Name string
+	Hash string
+	Size uint64
+}
+
+// verifNoIndex is a patherIterator over no object at all: Download() completes at once
+// and closes the (pre-filled) output channel.
+type verifNoIndex struct{}
+
+func (verifNoIndex) Next() (string, indexIterator) { return "", nil }
+
+// VerifMerger is a diamond built by NewDiamond for some conflict handling mode, on which the
+// merger may be run any number of times (building a diamond is costly: it sets up a logger).
+type VerifMerger struct {
+	d      *Diamond
+	stores context2.Stores
+}
+
+// NewVerifMerger builds the diamond.
+func NewVerifMerger(stores context2.Stores, mode model.ConflictMode) *VerifMerger {
+	return &VerifMerger{
+		d: NewDiamond("verif", stores,
+			DiamondDescriptor(model.NewDiamondDescriptor(model.DiamondMode(mode))),
+			DiamondLogger(zap.NewNop()),
+		),
+		stores: stores,
+	}
+}
+
+// VerifMerge runs Diamond.mergeSplits with the given conflict handling mode over batches,
+// delivered in the order given. It returns the merged entries in the order they were sent
+// to the uploader, the conflict flags left on the diamond descriptor, and the error hit, if any.
+//
+// Entries must carry a non-zero Timestamp (the merger panics in its own goroutine otherwise).
+func VerifMerge(stores context2.Stores, mode model.ConflictMode, batches []VerifBatch) (merged []VerifMerged, hasConflicts, hasCheckpoints bool, err error) {
+	return NewVerifMerger(stores, mode).Merge(batches)
+}
+
+// Merge runs Diamond.mergeSplits over batches, delivered in the order given (see VerifMerge).
+func (m *VerifMerger) Merge(batches []VerifBatch) (merged []VerifMerged, hasConflicts, hasCheckpoints bool, err error) {
+	nop := zap.NewNop()
+	d, stores := m.d, m.stores
+	// the flags are only ever raised by the merger: start from a fresh descriptor state
+	d.DiamondDescriptor.HasConflicts = false
+	d.DiamondDescriptor.HasCheckpoints = false
+
+	// like newFileIndex(), but with an output channel sized for the pre-filled batches
+	// (the default one holds 100k items: too costly to allocate for every small case)
+	indexer := &fileIndex{
+		metaObject:     defaultMetaObject(GetDiamondStore(stores)),
+		output:         make(chan bundleEntriesRes, len(batches)+1),
+		concurrency:    100,
+		l:              nop,
+		entriesPerFile: defaultBundleEntriesPerFile,
+		indexPather:    verifNoIndex{},
+	}
+	for i, b := range batches {
+		indexer.output <- bundleEntriesRes{
+			bundleEntries: model.BundleEntries{BundleEntries: b.Entries},
+			idx:           uint64(i),
+			id:            b.SplitID,
+		}
+	}
+	d.splitIndexer = indexer
+
+	// same channels as in implCommit (with a smaller buffer for the merged entries: the loop below drains it)
+	filePackedC := make(chan filePacked, 64)
+	errorC := make(chan errorHit)
+	doneOkC := make(chan struct{})
+
+	var wg sync.WaitGroup
+	wg.Add(1)
+	go d.mergeSplits(filePackedC, errorC, doneOkC, &wg)
+
+	// consume like fileIndex.pack does
+	var done bool
+	for !done {
+		select {
+		case file, ok := <-filePackedC:
+			if !ok {
+				done = true
+				break
+			}
+			merged = append(merged, VerifMerged{Name: file.name, Hash: file.hash, Size: file.size})
+		case e := <-errorC:
+			err = e.error
+			done = true
+		case <-doneOkC:
+			done = true
+		}
+	}
+	wg.Wait()
+
+	return merged, d.DiamondDescriptor.HasConflicts, d.DiamondDescriptor.HasCheckpoints, err
+}
